@@ -678,6 +678,18 @@ impl Store {
         // Get the index topic key
         let topic_key = idx_topic_key_from_frame(frame)?;
 
+        // Ids are unique: a different frame already stored under this id cannot be replaced
+        // consistently. With another context or topic its index entries live under other
+        // keys and would be left pointing at a frame they do not describe; with another TTL
+        // a removal already queued for the old frame would delete the new one.
+        if let Some(existing) = self.get(&frame.id) {
+            if existing != *frame {
+                return Err(
+                    format!("A different frame is already stored under id {}", frame.id).into(),
+                );
+            }
+        }
+
         let mut batch = self.keyspace.batch();
         batch.insert(&self.frame_partition, frame.id.as_bytes(), encoded);
         batch.insert(&self.idx_topic, topic_key, b"");
